@@ -966,12 +966,13 @@ where
     let mut seed_bytes = [0u8; 32];
     seed_bytes[..8].copy_from_slice(&select_seed.to_le_bytes());
     seed_bytes[8..16].copy_from_slice(&select_seed.rotate_left(17).to_le_bytes());
-    let rt = tokio::runtime::Builder::new_current_thread()
-        .enable_time()
-        .start_paused(true)
-        .rng_seed(tokio::runtime::RngSeed::from_bytes(&seed_bytes))
-        .build()
-        .expect("runtime");
+    let mut builder = tokio::runtime::Builder::new_current_thread();
+    builder.enable_time().start_paused(true);
+    // the select! branch order is part of the schedule (needs --cfg tokio_unstable; the fuzz targets are
+    // built without it)
+    #[cfg(tokio_unstable)]
+    builder.rng_seed(tokio::runtime::RngSeed::from_bytes(&seed_bytes));
+    let rt = builder.build().expect("runtime");
     let cfg = cfg.clone();
     let adapters = adapters.clone();
     let transport = transport.clone();
